@@ -147,7 +147,7 @@ def err_check(ctx: Ctx) -> RuleResult:
                 r.violate(f"{f.short}: the futures reported done by {norm_src(call.func)} are never inspected", f.loc(n),
                           "a failure stored in one of them is never observed: the failed node is treated as finished, its dependents are "
                           "started and the call returns normally", norm_src(n)[:120])
-    r.require(n_direct >= 2, f"only {n_direct} calls of a futures wait primitive found in the package (one per future kind expected)")
+    # (no floor here: the helper summaries below have their own - a wait primitive reached in another way is their business)
     try:
         m = model(ctx)
     except Undecided:
